@@ -15,6 +15,23 @@ ACCESSOR_KIND = {"iri": "Iri", "bnode_id": "BlankNode", "lexical_form": "Literal
                  "triple": "Triple", "to_triple": "Triple", "variable": "Variable"}
 
 
+def norm_key(k):
+    """keys never contain the ordinal of a closure: `f::{closure#2}::{closure#0}` -> `f::{closure}::{closure}`"""
+    return re.sub(r"\{closure#\d+\}", "{closure}", k)
+
+
+def norm_table(table):
+    """normalise the keys of an audited table; entries that become equal are merged (their counts add up)"""
+    out = {}
+    for k, v in table.items():
+        nk = norm_key(k)
+        if nk in out and isinstance(v, tuple) and isinstance(v[0], int):
+            out[nk] = (out[nk][0] + v[0], out[nk][1])
+        else:
+            out[nk] = v
+    return out
+
+
 class Site:
     def __init__(self, fn, bi, kind, what, detail, loc, exp):
         self.fn = fn
@@ -29,7 +46,8 @@ class Site:
 
     @property
     def key(self):
-        return "%s#%s:%s:%s" % (self.fn.name, self.kind, self.what, self.detail)
+        # closure ordinals are positional (adding a closure earlier in the function renumbers the others): not part of the key
+        return "%s#%s:%s:%s" % (norm_key(self.fn.name), self.kind, self.what, self.detail)
 
 
 def origin_desc(fn, operand):
@@ -254,6 +272,7 @@ def classify(facts, sites, table, validators=(), regex_ok=True):
     """sets site.status in {auto, validator, audited, unaudited}.  `table`: {key: (max_count, reason)}.
     `validators`: regexes on the asserted expression that are discharged by a language obligation."""
     counts = {}
+    table = norm_table(table)
     for s in sites:
         fn = s.fn
         t = fn.blocks[s.bi]["t"]
